@@ -1,7 +1,6 @@
 package main
 
 import (
-	"sync"
 	"encoding/json"
 	"flag"
 	"fmt"
@@ -12,6 +11,7 @@ import (
 	"runtime"
 	"sort"
 	"strings"
+	"sync"
 	"time"
 )
 
@@ -271,7 +271,7 @@ func main() {
 					fmt.Printf("UNCONFIRMED property=%s harness=%s label=%q native=%v\n", *prop, hr.Name, v.Label, v.NativeEvents)
 					if os.Getenv("SYMGO_DEBUG_UNCONFIRMED") != "" {
 						jb, _ := json.Marshal(v.Model)
-						fmt.Printf("  inputs=%s\n", jb)
+						fmt.Printf("  inputs=%s\n  events=%v\n", jb, v.Events)
 					}
 					problems = append(problems, fmt.Sprintf("%s: counterexample for %q did not reproduce natively", hr.Name, v.Label))
 					continue
